@@ -3,6 +3,7 @@ package rules
 import (
 	"go/token"
 	"go/types"
+	"sort"
 	"strings"
 
 	"golang.org/x/tools/go/ssa"
@@ -50,18 +51,49 @@ func dispatchTable(fn *ssa.Function) map[string]string {
 			return
 		}
 		for _, t := range an.BoolTests(call) {
-			// the first call in the true successor
-			for _, x := range t.True.To.Instrs {
-				if ci, ok := x.(*ssa.Call); ok {
-					if f := an.StaticCallee(ci); f != nil && f.Signature.Recv() != nil {
-						out[name] = f.Name()
-						break
-					}
-				}
-			}
+			out[name] = dispatchedFrom(fn, t.True)
 		}
 	})
 	return out
+}
+
+// dispatchedFrom: the method of fn's receiver type that is called first on the paths starting with
+// edge e – directly, or through a method value the path bound (`h = p.REGISTER; ...; h(args)`).
+// "" when a path returns without calling one, "a|b" when paths disagree.
+func dispatchedFrom(fn *ssa.Function, e an.Edge) string {
+	names := map[string]bool{}
+	isHandler := func(in ssa.Instruction, st *an.PathState) string {
+		ci, ok := in.(*ssa.Call)
+		if !ok {
+			return ""
+		}
+		f := calleeOnPath(ci, st)
+		if f == nil || f.Signature.Recv() == nil || fn.Signature.Recv() == nil || !types.Identical(f.Signature.Recv().Type(), fn.Signature.Recv().Type()) {
+			return ""
+		}
+		return f.Name()
+	}
+	q := &an.PathQ{Fn: fn, StartEdges: []an.Edge{e}, AllAlias: true, FullOnly: true,
+		Cut: func(in ssa.Instruction, st *an.PathState) bool {
+			if n := isHandler(in, st); n != "" {
+				names[n] = true
+				return true
+			}
+			return false
+		},
+		Sink: func(in ssa.Instruction, _ *an.PathState) bool {
+			if _, ok := in.(*ssa.Return); ok {
+				names[""] = true
+			}
+			return false
+		}}
+	q.Find()
+	var out []string
+	for n := range names {
+		out = append(out, n)
+	}
+	sort.Strings(out)
+	return strings.Join(out, "|")
 }
 
 func c09dispatch(c *an.Ctx) {
@@ -158,11 +190,15 @@ func c09dispatch(c *an.Ctx) {
 	v2ok := false
 	an.Instrs(handle, func(in ssa.Instruction) {
 		b, ok := in.(*ssa.BinOp)
-		if !ok || b.Op != token.EQL {
+		if !ok || (b.Op != token.EQL && b.Op != token.NEQ) {
 			return
 		}
 		if s, ok := an.ConstString(b.Y); ok && s == "  V2" {
 			for _, t := range an.BoolTests(b) {
+				if b.Op == token.NEQ {
+					// `if magic != "  V2" { refuse }`: the accepting edge is the false one
+					t.True, t.False = t.False, t.True
+				}
 				// IOLoop invoke only reachable via the true edge
 				q := &an.PathQ{Fn: handle, StartEntry: true,
 					Sink:    func(in ssa.Instruction, _ *an.PathState) bool { return isInvokeOn(in, "Protocol", "IOLoop", nil) },
